@@ -107,8 +107,27 @@ def cases(draw):
     }
 
 
+@st.composite
+def adhoc_hint_cases(draw):
+    """adhoc on a factor graph where a computation is tied by host_with to a computation that a must_host hint
+    has already placed, with capacities that are a tight packing (seeded change C23-m6 skipped the capacity
+    filter on exactly that path): the conjunction is rare in cases()."""
+    case = draw(cases())
+    case["method"], case["graph"], case["entry"] = "adhoc", "factor_graph", "api"
+    na = len(case["agents"])
+    ci = draw(st.integers(0, 7))
+    case["hints"] = {"must_host": [(draw(st.integers(0, na - 1)), ci)] +
+                                  draw(st.lists(st.tuples(st.integers(0, na - 1), st.integers(0, 7)), max_size=1)),
+                     "host_with": [(draw(st.integers(0, 7)), ci)] +
+                                  draw(st.lists(st.tuples(st.integers(0, 7), st.integers(0, 7)), max_size=1))}
+    for a in case["agents"]:
+        a["capacity"] = 0
+        a["cap_rel"] = {"mode": "pack", "slack": draw(st.sampled_from([0, 0, 1, 2, 4]))}
+    return case
+
+
 def case_strategy(tier):
-    return cases()
+    return st.one_of(cases(), cases(), cases(), cases(), cases(), cases(), cases(), adhoc_hint_cases())
 
 
 _patched = set()
